@@ -550,3 +550,114 @@ func checkC06BeforeCommand(c *Ctx, n int) {
 		})
 	}
 }
+
+// checkC06RequiredChanged: Option.Required is a public field.  The program marks an option required (or no longer
+// required) after the declaration was scanned — right after building, or after the parser has been used once; the
+// option sits on the parser, among a command's own options or in a group nested in the command, in a group that has
+// or has not another required option.  The call that follows demands exactly what is marked NOW.
+func checkC06RequiredChanged(c *Ctx, n int) {
+	r := c.Rng
+	for i := 0; i < n; i++ {
+		otherRequired := r.Intn(3) == 0 // the target's group also declares a required option by tag (always supplied)
+		tagRequired := r.Intn(4) == 0   // the target is required by tag and the program clears the mark
+		where := r.Intn(3)              // 0 parser group, 1 the command's own options, 2 a group nested in the command
+		mk := func(name string) []FieldDesc {
+			tag := fmt.Sprintf(`long:"%s"`, name)
+			if tagRequired {
+				tag += ` required:"yes"`
+			}
+			fs := []FieldDesc{{Name: "Target", Exported: true, Kind: "v", Ty: []string{"str", "int", "Lstr", "Lint"}[r.Intn(4)], Tag: tag}}
+			if otherRequired {
+				fs = append(fs, FieldDesc{Name: "Other", Exported: true, Kind: "v", Ty: "str", Tag: `long:"other-` + name + `" required:"true"`})
+			}
+			return fs
+		}
+		nested := &StructDesc{Fields: []FieldDesc{{Name: "Plain", Exported: true, Kind: "v", Ty: "bool", Tag: `long:"plain"`}}}
+		cmd := &StructDesc{Fields: []FieldDesc{{Name: "CmdFlag", Exported: true, Kind: "v", Ty: "bool", Tag: `long:"cflag"`}}}
+		root := &StructDesc{Fields: []FieldDesc{{Name: "Verbose", Exported: true, Kind: "v", Ty: "bool", Tag: `short:"v"`}}}
+		tgt := BuildOp{Kind: "setopt", Attr: "required"}
+		var other string
+		switch where {
+		case 0:
+			root.Fields = append(root.Fields, mk("token")...)
+			tgt.Target, tgt.Gi, tgt.Oi = 1, 1, 1
+			other = "--other-token=o"
+		case 1:
+			cmd.Fields = append(cmd.Fields, mk("token")...)
+			tgt.Target, tgt.Gi, tgt.Oi = 2, 0, 1
+			other = "--other-token=o"
+		case 2:
+			nested.Fields = append(nested.Fields, mk("token")...)
+			tgt.Target, tgt.Gi, tgt.Oi = 2, 1, 1
+			other = "--other-token=o"
+		}
+		cmd.Fields = append(cmd.Fields, FieldDesc{Name: "Nested", Exported: true, Kind: "s", Sub: nested, Tag: `group:"Nested Options"`})
+		root.Fields = append(root.Fields, FieldDesc{Name: "Run", Exported: true, Kind: "s", Sub: cmd, Tag: `command:"run"`})
+		now := !tagRequired
+		if now {
+			tgt.Vals = []string{hx("1")}
+		} else {
+			tgt.Vals = []string{hx("0")}
+		}
+		cs := &Case{Name: "app", NsDelim: ".", EnvNsDelim: "_", CmdHandler: true}
+		cs.Build = []BuildOp{{Kind: "addgroup", Target: 1, Short: "Application Options", Struct: root}}
+		late := r.Intn(2) == 0
+		full := []string{"run", "--token=1"}
+		if otherRequired {
+			full = append(full, other)
+		}
+		if late {
+			// the parser is used once (everything supplied), then the mark changes
+			cs.Ops = append(cs.Ops, Op{Kind: "parse", Args: full}, Op{Kind: "build", B: &tgt})
+		} else {
+			cs.Build = append(cs.Build, tgt)
+		}
+		given := r.Intn(3) == 0
+		argv := []string{"run"}
+		if r.Intn(2) == 0 {
+			argv = []string{"-v", "run", "--cflag"}
+		}
+		if otherRequired {
+			argv = append(argv, other)
+		}
+		if given {
+			argv = append(argv, "--token=1")
+		}
+		cs.Ops = append(cs.Ops, Op{Kind: "parse", Args: argv})
+		cs.Description = describeOps(cs)
+		c.RunCases([]*Case{cs}, func(cr *CaseResult) {
+			c.classifyCase(cr)
+			if cr.Real == nil || cr.Real.dead {
+				return
+			}
+			var obs parseObs
+			for _, o := range parseBlocks(cr) {
+				obs = o
+			}
+			nHandler := 0
+			for _, l := range obs.logs {
+				if strings.HasPrefix(l, "LOG cmdhandler ") {
+					nHandler++
+				}
+			}
+			// an earlier call that supplied the option leaves it supplied (set-marks persist on a parser, §8)
+			demanded := now && !given && !late
+			c.Class(fmt.Sprintf("c06/required-changed: where=%d required-now=%v late=%v given=%v other-required=%v", where, now, late, given, otherRequired))
+			in := map[string]interface{}{"case": cs.Description, "argv": argv, "option_marked_required_now": now, "marked_after_first_use": late}
+			got := fmt.Sprintf("%s %s type %d %q, %d CommandHandler calls", obs.panic, obs.errKind, obs.errType, obs.errMsg, nHandler)
+			want := "success, one CommandHandler call"
+			var ok bool
+			if demanded {
+				want = "ErrRequired: the required flag `--token' was not specified; no CommandHandler call"
+				ok = obs.panic == "" && obs.errKind == "flags" && obs.errType == int(flags.ErrRequired) && nHandler == 0 &&
+					obs.errMsg == "the required flag `--token' was not specified"
+			} else {
+				ok = obs.panic == "" && obs.errKind == "ok" && nHandler == 1
+			}
+			if !ok {
+				in["case_file"] = c.saveCase(cr)
+			}
+			c.Check("the-call-demands-what-is-marked-required-now", ok, "C06:required-changed", in, got, want)
+		})
+	}
+}
